@@ -113,4 +113,17 @@ def fixed_dotglob_inner_dot(chk):
                     chk.violation(dict(obligation='C03.fixed.a_dot_written_in_an_earlier_group_does_not_lift_the_guard_of_a_later_segment', pattern=p, fl=nm, witness=full),
                                   f'globmatch({full!r}, {p!r}, {nm}) is True: a wildcard construct matched the directory {name!r}',
                                   f"import sys; sys.path.insert(0, {REPO!r})\nfrom wcmatch import glob\ngot = glob.globmatch({full!r}, {p!r}, flags={fl | G.U})\nprint(got)\nsys.exit(1 if got else 0)\n")
+    # a fourth fixed family (wave 7): an exclusive bracket whose ranges are all reversed matches any character - but, like every wildcard, not a leading dot
+    # and never the segments `.` / `..`
+    F = LC.F
+    for p, name, fl, nm, api in (('[!z-a]*', '.hidden', 0, '0', 'g'), ('[^9-0]*', '.hidden', 0, '0', 'g'), ('[!z-a]hidden', '.hidden', 0, '0', 'f'), ('[!z-a]*', '.hidden', 0, '0', 'f'),
+                                 ('@([!z-a]*)', '.hidden', G.E, 'EXTGLOB', 'g'), ('*/[!z-a]*', 'a/.b', 0, '0', 'g'), ('[!z-a]', '.', G.D, 'DOTGLOB', 'g'), ('[!z-a][!z-a]', '..', G.D, 'DOTGLOB', 'g'),
+                                 ('a/[!z-a]', 'a/.', G.D, 'DOTGLOB', 'g'), ('[!z-a]b', 'a/.b', G.X, 'MATCHBASE', 'g'), ('[!z-a]', '.', 0, '0', 'g')):
+        n += 1
+        chk.case(key=('reversed-exclusive-bracket', p, nm, name, api))
+        got = G.globmatch(name, p, flags=fl | G.U) if api == 'g' else F.fnmatch(name, p, flags=fl | F.U)
+        if got:
+            chk.violation(dict(obligation='C03.fixed.an_exclusive_bracket_of_reversed_ranges_is_a_wildcard_like_any_other_(no_leading_dot,_no_dot_directories)', pattern=p, fl=nm, witness=name),
+                          f'{"globmatch" if api == "g" else "fnmatch"}({name!r}, {p!r}, {nm}) is True',
+                          f"import sys; sys.path.insert(0, {REPO!r})\nfrom wcmatch import glob, fnmatch\ngot = {'glob.globmatch' if api == 'g' else 'fnmatch.fnmatch'}({name!r}, {p!r}, flags={fl} | glob.U)\nprint(got)\nsys.exit(1 if got else 0)\n")
     chk.bounds['c03_fixed_dotglob_inner_dot_cases'] = n
